@@ -44,6 +44,26 @@ Definition hobs_eqb (a b : hobs) : bool :=
   && log_eqb (h_elog a) (h_elog b) && dstate_eqb (h_efinal a) (h_efinal b)
   && Bool.eqb (h_ecalled a) (h_ecalled b) && Bool.eqb (h_eunhandled a) (h_eunhandled b).
 
+(* What extract_result leaves in the Deferred is not pinned by the statement (the current code lets later
+   callbacks see None; a passive extract_result is just as good).  So the comparison with the model stops at
+   the first extract_result of a history: it keeps the operations before it with everything they showed, the
+   state extract_result found and what it returned / raised, the values the recorders saw until then - and
+   forgets what came after, the final state, the logging and the reference run.  (spec_okb still judges the
+   whole observation of the implementation.) *)
+Definition is_extract_out (x : oobs) : bool := match p_out x with OutExtract _ => true | _ => false end.
+Fixpoint cut_ops (xs : list oobs) : list oobs * bool :=
+  match xs with
+  | [] => ([], false)
+  | x :: r => if is_extract_out x then ([mkO (p_before x) (p_cbefore x) (p_out x) SUnfired false 0], true)
+              else let '(r', b) := cut_ops r in (x :: r', b)
+  end.
+Definition ran_total (xs : list oobs) : nat := fold_right (fun x n => p_ran x + n) 0 xs.
+Definition cut (h : hobs) : hobs :=
+  match cut_ops (h_ops h) with
+  | (_, false) => h
+  | (xs, true) => mkH xs (firstn (ran_total xs) (h_log h)) false [] [] SUnfired false false
+  end.
+
 (* the event lists of the two whole-test runs are compared only with each other (the
    model of a whole test run belongs to C01-C03): alpha keeps "are they equal" *)
 Definition sobs_alpha (o : sobs) : uret * uret * bool :=
@@ -55,14 +75,14 @@ Definition sobs_eqb (a b : sobs) : bool :=
 
 Definition obs_eqb (a b : obs) : bool :=
   match a, b with
-  | OHist x, OHist y => hobs_eqb x y
+  | OHist x, OHist y => hobs_eqb (cut x) (cut y)
   | OSync x, OSync y => sobs_eqb x y
   | _, _ => false
   end.
 
 Inductive obs_a := AHist (h : hobs) | ASync (x : uret * uret * bool).
 Definition alpha (o : obs) : obs_a :=
-  match o with OHist h => AHist h | OSync s => ASync (sobs_alpha s) end.
+  match o with OHist h => AHist (cut h) | OSync s => ASync (sobs_alpha s) end.
 
 Definition report := @report input obs model obs_eqb spec_okb findings.
 Definition model_at := @model_at input obs model spec_okb.
